@@ -336,9 +336,20 @@ struct V {
             attempt([&] { made.emplace(w.begin(), w.end()); }, &msg),
             "Grid<" + std::string(ST<T>::name()) + "> from a range of a wider type, stored as " +
                 seqStr(stored), msg);
-      if (made && !strictlyIncreasing(std::vector<T>(made->begin(), made->end())))
-        c.violation("C10", "grid-invariant/foreign-iterator-range",
-                    "live grid " + seqStr(std::vector<T>(made->begin(), made->end())));
+      if (made) {
+        // walk the live grid through its shared data (the accessors of an
+        // invalid grid throw when the self-checks are compiled in)
+        try {
+          const std::vector<T> live = *made->getData();
+          if (!strictlyIncreasing(live) || live.size() < 2)
+            c.violation("C10", "grid-invariant/foreign-iterator-range",
+                        "live grid " + seqStr(live));
+        } catch (const BSplineException &e) {
+          c.violation("C10", "grid-invariant/foreign-iterator-range",
+                      std::string("accessor of the live grid threw ") + e.what() +
+                          "; points as converted: " + seqStr(stored));
+        }
+      }
       c.count(collapse ? "grid-foreign:collapsing" : "grid-foreign:distinct");
     }
     // single-pass input iterators (std::istream_iterator)
